@@ -1,11 +1,11 @@
 """C05 pixel operations pair channels by colour -- memory-effect (D-bits) and address (D-poly) analysis
 over the cross product (pixel model x layout) x (pixel model x layout)."""
-import os, json, itertools
+import os, re, json, itertools
 from . import common as C
 from .ir.bits import BitsInterp
 from .ir.poly import PolyInterp, Poly, Unsupported
 
-LEVEL = "proof"
+LEVEL = "other"
 EXPLANATION = ("Static analysis: for every ordered pair of compatible pixel models (value / C++ reference, planar reference, "
                "packed pixel, bit-aligned reference) and every pair of layouts of one colour space, the inlined IR of "
                "assignment and converting construction is interpreted in the bit-provenance domain: each destination cell of "
@@ -29,8 +29,9 @@ def spec():
 class Model:
     """one pixel model instance in a wrapper: parameters, setup code, expression, expected cells"""
 
-    def __init__(self, kind, layout, sizes=None, off=0):
+    def __init__(self, kind, layout, sizes=None, off=0, bf=None):
         self.kind, self.layout, self.off = kind, layout, off
+        self.bf = bf            # an explicit BitField type (default: the smallest type that holds the pixel at any bit offset, as bit_aligned_image_type picks it)
         sp = spec()
         self.space = sp["layouts"][layout]["space"]
         self.colors = sp["color_spaces"][self.space]
@@ -39,7 +40,7 @@ class Model:
         self.csizes = sizes     # bits per colour (semantic order) for packed models
 
     def tag(self):
-        return "%s_%s%s" % (self.kind, self.layout.replace("_layout_t", "").replace("<", "").replace(">", ""), ("o%d" % self.off) if self.kind == "bits" else "")
+        return "%s%s_%s%s" % (self.kind, "8" if self.bf else "", self.layout.replace("_layout_t", "").replace("<", "").replace(">", ""), ("o%d" % self.off) if self.kind == "bits" else "")
 
     def phys_sizes(self):
         return [self.csizes[self.colors.index(c)] for c in self.mem]
@@ -59,6 +60,8 @@ class Model:
         raise ValueError(self.kind)
 
     def bitfield(self):
+        if self.bf:
+            return self.bf
         tot = sum(self.csizes) + 7
         return "std::uint8_t" if tot <= 8 else ("std::uint16_t" if tot <= 16 else ("std::uint32_t" if tot <= 32 else "std::uint64_t"))
 
@@ -113,6 +116,10 @@ def families(tier):
             for o in offs:
                 ms.append(Model("bits", l, sizes, o))
         fam.append(("packed/" + space, ms))
+    # the bit-aligned reference of the library's own documentation (doc/design/pixel.rst, the class comment, test/legacy/pixel.cpp): a 7-bit pixel over an
+    # `unsigned char` bit field, which holds the pixel at bit offset 0 or 1 only
+    ms = [Model("packed", "bgr_layout_t", (2, 3, 2))] + [Model("bits", "bgr_layout_t", (2, 3, 2), o, bf="std::uint8_t") for o in ((0, 1, 2, 5) if tier == "thorough" else (0, 2))]
+    fam.append(("documented-bitfield/rgb_t", ms))
     return fam
 
 
@@ -120,9 +127,47 @@ def bitname(root, pos):
     return ("in", ("m", root, pos // 8), pos % 8)
 
 
+DEVICEN_WITNESS = r"""
+#include "vf_common.hpp"
+using namespace vf;
+// the view factories of every provided colour space over planar data (the DeviceN ones are the only way to a planar view of 2..5 unnamed channels)
+void inst(unsigned char* a, unsigned char* b, unsigned char* c, unsigned char* d, unsigned char* e){
+  auto v2 = planar_devicen_view(2, 2, a, b, 2); auto v3 = planar_devicen_view(2, 2, a, b, c, 2);
+  auto v4 = planar_devicen_view(2, 2, a, b, c, d, 2); auto v5 = planar_devicen_view(2, 2, a, b, c, d, e, 2);
+  auto r3 = planar_rgb_view(2, 2, a, b, c, 2); auto r4 = planar_rgba_view(2, 2, a, b, c, d, 2); auto k4 = planar_cmyk_view(2, 2, a, b, c, d, 2);
+  v2(0, 0) = v2(1, 1); v3(0, 0) = v3(1, 1); v4(0, 0) = v4(1, 1); v5(0, 0) = v5(1, 1); r3(0, 0) = r3(1, 1); r4(0, 0) = r4(1, 1); k4(0, 0) = k4(1, 1);
+  (void)(v5(0, 0) == v5(1, 1)); (void)at_c<4>(v5(0, 0)); (void)semantic_at_c<1>(v2(0, 0));
+}
+"""
+
+
+def factories_compile(rep, wd):
+    rep.rule("X0 the planar view factories of every provided colour space (planar_rgb_view, planar_rgba_view, planar_cmyk_view, planar_devicen_view for 2..5 channels) instantiate, "
+             "and pixels of their views can be assigned, compared and indexed: a planar reference model that cannot be formed is not covered by any other rule")
+    src = os.path.join(wd, "devicen_witness.cpp")
+    open(src, "w").write(DEVICEN_WITNESS)
+    rc, err, cmd = C.syntax_only(src)
+    rep.count("obligations:X0")
+    if rc == 0:
+        rep.ok("X0-factories", "X0:planar view factories of rgb, rgba, cmyk, devicen 2..5", "compile")
+        return
+    seen = set()
+    for e in C.parse_errors(err)[:20]:
+        if "include/boost/gil/" not in e["file"]:
+            continue
+        key = "X0:%s:%s" % (C.repo_rel(e["file"]), re.sub(r"'[^']{40,}'", "'...'", e["msg"])[:100])
+        if key in seen:
+            continue
+        seen.add(key)
+        rep.violation("X0-factories", key, "%s:%s" % (C.repo_rel(e["file"]), e["line"]), {"error": e["msg"][:300], "example": "auto v = planar_devicen_view(2, 2, plane0, plane1, 2);"})
+    if not seen:
+        raise C.AnalysisBroken("planar factory witness does not compile: %s" % err[-500:])
+
+
 def run(rep):
     C.need_tools(C.IRDUMP)
     wd = C.workdir("C05")
+    factories_compile(rep, wd)
     lines, obl = [], []
 
     def emit(name, params, body):
@@ -271,6 +316,23 @@ def run(rep):
             check_one(rep, fn, o, W)
         except Unsupported as e:
             rep.fail_analysis("%s: %s" % (name, e))
+    # the documented-bitfield family: a channel that straddles the end of the (too narrow) bit field fails in every operation that touches it; report one violation per
+    # offending reference model (offset) with the operations as detail, instead of one per operation pair
+    narrow = {}
+    keep = []
+    for v in rep.violations:
+        ms = re.findall(r"bits8_(\w+?)o(\d)", v["key"])
+        offenders = sorted({"bits8_%so%s" % (l, o_) for l, o_ in ms if any((int(o_) + a_) // 8 != (int(o_) + b_ - 1) // 8 for a_, b_ in ((0, 2), (2, 5), (5, 7)))})
+        if offenders:
+            for m_ in offenders:
+                narrow.setdefault(m_, []).append("%s %s: %s" % (v["rule"], v["key"], (v["detail"] or {}).get("problem", "")[:90]))
+        else:
+            keep.append(v)
+    rep.violations[:] = keep
+    for m_, ops in sorted(narrow.items()):
+        rep.violations.append({"rule": "narrow-bitfield", "key": "narrow-bitfield:%s:a channel crosses the end of the 8-bit BitField" % m_, "where": "include/boost/gil/bit_aligned_pixel_reference.hpp, channel.hpp (packed_dynamic_channel_reference)",
+                               "detail": {"model": "bit_aligned_pixel_reference<unsigned char, mp_list_c<unsigned,2,3,2>, bgr_layout_t, true> at bit offset %s (the type of doc/design/pixel.rst)" % m_[-1],
+                                          "failing operations": ops[:12], "count": len(ops)}})
     rep.floor("obligations:assign", 60)
     rep.floor("obligations:equal", 30)
     rep.floor("obligations:address", 60)
@@ -296,9 +358,18 @@ def check_one(rep, fn, o, W):
                 exp[(dr, dpos + i)] = bitname(sr, spos + i)
         bad = None
         seen = set()
+        # the unused high bits of a packed_pixel VALUE's own bit field (7 channel bits in a byte) belong to that pixel and to no colour: what an assignment or
+        # construction leaves in them is not constrained (the bits around a bit-aligned REFERENCE belong to its neighbours and must stay)
+        padding = set()
+        if d.kind == "packed":
+            tot = sum(d.csizes)
+            width = 8 if tot <= 8 else (16 if tot <= 16 else 32)
+            padding = {(dc[d.colors[0]][0], p_) for p_ in range(tot, width)}
         for (root, off), bits in sorted(mem.items()):
             for i, b in enumerate(bits):
                 pos = off * 8 + i
+                if (root, pos) in padding:
+                    continue
                 want = exp.get((root, pos), bitname(root, pos))
                 if (root, pos) in exp:
                     seen.add((root, pos))
